@@ -64,7 +64,7 @@ def run(ctx):
     ctx.cov["checker_cmd"] = ("coqc -Q coq/Store BWStore coq/Store/Props/C01.v; work/bin/h_store -mode hist | "
                               "coqc work/C01/cases_*.v (BWStore.Corr.mismatches_from, vm_compute)")
     n = 96 if ctx.quick() else 3000
-    hargs = ["-maxops", 40, "-usize", 24, "-bigmax", 1100 if ctx.quick() else 5000]
+    hargs = ["-maxops", 40, "-usize", 24, "-bigmax", 1100 if ctx.quick() else 5000, "-longchurn", 0 if ctx.quick() else 110]
     if ctx.replay and sc.replay(ctx, [], hargs, (True, False, False)):
         return
     hists = sc.hstore(["-mode", "hist", "-n", n, "-seed", ctx.seed] + hargs)
